@@ -695,6 +695,7 @@ def run(ctx):
     check_new_operator(ctx)
     check_check_transition(ctx)
     c02.check_transition_fn(ctx, 3)
+    ob_errors_propagate(ctx, 3, "a decision that would start an operator with an unfinished parent is rejected with an error")
     c02.check_writers(ctx, 4)
     check_operator_forward(ctx)
     check_running_sites(ctx)
